@@ -125,13 +125,27 @@ def run(seed_id, props, tier):
     dst = os.path.join(VERIF, "seeded", seed_id)
     meta = json.load(open(os.path.join(dst, "meta.json")))
     props = props or [meta["property"]]
-    rc, out = sh(["git", "-C", REPO, "status", "--porcelain"])
+    # SEEDEVAL_WT=<dir>: apply the change to a scratch worktree of /repo's HEAD instead of /repo
+    # itself and point the checks at it (while something else is running against /repo)
+    wt = os.environ.get("SEEDEVAL_WT")
+    target = wt or REPO
+    if wt:
+        if os.path.exists(wt):
+            sh(["git", "-C", REPO, "worktree", "remove", "--force", wt])
+        rc, out = sh(["git", "-C", REPO, "worktree", "add", "-q", "--detach", wt, "HEAD"])
+        if rc != 0:
+            print(out)
+            return 2
+        ENV["VERIF_REPO"] = wt
+    rc, out = sh(["git", "-C", target, "status", "--porcelain"])
     if out.strip():
-        print("/repo is not clean:", out)
+        print(target, "is not clean:", out)
         return 2
-    rc, out = sh(["git", "-C", REPO, "apply", os.path.join(dst, "patch.diff")])
+    rc, out = sh(["git", "-C", target, "apply", os.path.join(dst, "patch.diff")])
     if rc != 0:
         print("cannot apply:", out)
+        if wt:
+            sh(["git", "-C", REPO, "worktree", "remove", "--force", wt])
         return 2
     results = meta.setdefault("checks", {})
     try:
@@ -147,8 +161,11 @@ def run(seed_id, props, tier):
                                             "result_line": [l for l in out.splitlines() if l.startswith("RESULT") or l.startswith("BROKEN")][:2]}
             print(seed_id, p, tier, "exit", rc, "DETECTED" if rc == 1 else ("BROKEN" if rc == 3 else "missed"), keys[:2])
     finally:
-        sh(["git", "-C", REPO, "checkout", "--", "."])
-        sh(["git", "-C", REPO, "clean", "-fdq"])
+        if wt:
+            sh(["git", "-C", REPO, "worktree", "remove", "--force", wt])
+        else:
+            sh(["git", "-C", REPO, "checkout", "--", "."])
+            sh(["git", "-C", REPO, "clean", "-fdq"])
         # evidence and replays written while the change was applied do not describe the real tree
         sh("git checkout -- evidence 2>/dev/null; rm -rf replays", cwd=VERIF)
     json.dump(meta, open(os.path.join(dst, "meta.json"), "w"), indent=1)
